@@ -23,6 +23,7 @@ ENTRIES = [
 
 
 def run(ctx):
+    ctx.do(NP.rule_viewaug1, ["geometry_tools/utils/core.py"])
     ctx.do(D.rule_t1, ENTRIES,
               "rotations, sl2_iso(list), regular_polygon and the README "
               "examples then produce object arrays on which inverse / "
